@@ -566,7 +566,9 @@ def metrics_scenes(ctx, d):
         acc = L["Acc"](object_results=pooled_res, num_ground_truth=pooled_gt, target_labels=tl)
         got = acc.results
     if acc is not None:
-        R = sum(v[0] for v in total.values())
+        # every result handed over is either a TP or an FP here — including an unknown-labelled estimate without ground
+        # truth, which belongs to no label bucket of the per-label form
+        R = sum(len(r) for r in pooled_res)
         TP = sum(v[1] for v in total.values())
         ctx.require(
             got.get("predict_num") == R and acc.num_tp == TP and acc.num_fp == R - TP,
